@@ -109,6 +109,28 @@ def perturb(c, rng, system):
     return rec(c)
 
 
+def set_leaf(c, k, rng, system):
+    """c with the feature of its k-th leaf replaced by a random concrete / variable / absent feature"""
+    cnt = [0]
+
+    def rec(n):
+        if n['k'] == 'F':
+            l = rec(n['l'])
+            return gen.fun(l, n['s'], rec(n['r']))
+        i = cnt[0]
+        cnt[0] += 1
+        if i != k or n['b'] in gen.PUNCT:
+            return n
+        if n['f']['t'] == 'U':
+            return gen.atom(n['b'], gen.uf(rng.choice(['', 'X', 'nb', 'dcl', 'b', 'em', 'expl', 'thr'])))
+        kv = [dict(e) for e in n['f']['kv']]
+        j = rng.randrange(3)
+        kv[j]['v'] = rng.choice(['X1', 'nm', 'f', 't', 'base', 'ga', 'o', 'adn'])
+        kv[j]['x'] = kv[j]['v'].startswith('X')
+        return gen.atom(n['b'], {'t': 'T', 'kv': kv})
+    return rec(c)
+
+
 def one_call(pxs, pys, px, py, xv, yv):
     """run one real matcher; returns the event (without id)"""
     from depccg.unification import Unification
@@ -197,7 +219,21 @@ def run(tier):
         for i in range(n_per):
             system = 'en' if i % 2 == 0 else 'ja'
             inv = inv_en if system == 'en' else inv_ja
-            mode = i % 4
+            mode = i % 6
+            if mode >= 4:       # paired perturbation: one leaf of a shared variable gets features (f1, f2) on the two sides
+                pool = inv if rng.random() < 0.5 else [gen.rand_cat(rng, rng.choice([1, 2, 2, 3]), system) for _ in range(4)]
+                sub = {v: rng.choice(pool) for v in vs}
+                shared = [v for v in vs if v in pat_vars(px) and v in pat_vars(py)]
+                subx, suby = dict(sub), dict(sub)
+                if shared:
+                    v = rng.choice(shared)
+                    k = rng.randrange(len(enc.leaves(sub[v])))
+                    subx[v] = set_leaf(sub[v], k, rng, system)
+                    suby[v] = set_leaf(sub[v], k, rng, system)
+                xv, yv = inst(px, subx, rng), inst(py, suby, rng)
+                n_inst += 1
+                call(pxs, pys, xv, yv, 'driver-paired')
+                continue
             if mode == 0:       # random inventory pair
                 xv, yv = rng.choice(inv), rng.choice(inv)
                 n_rand += 1
